@@ -24,6 +24,8 @@ pub struct Log {
     pub dlv: Vec<(usize, i64, String, J, J)>,
     /// invocations of the function underlying a weak_memoize_fn (memo id, key)
     pub memo: Vec<(usize, J)>,
+    /// deliveries to node-level on_update handlers (node, handler index on that node, kind, value)
+    pub ndlv: Vec<(usize, usize, String, J)>,
 }
 
 #[derive(Default)]
@@ -35,6 +37,8 @@ pub struct Tables {
     pub leaked: Vec<Incr<Val>>,
     /// expert node id -> "its observability callback panics next time it becomes observable"
     pub armed: HashMap<usize, Rc<Cell<bool>>>,
+    /// number of on_update handlers installed per node
+    pub nhandlers: HashMap<usize, usize>,
     pub log: Log,
     pub in_stabilise: bool,
 }
@@ -646,6 +650,27 @@ impl Session {
                 ctx.push_node(id, None);
                 ctx.push_node(id + 1, Some(n));
             }
+            "on_update" => {
+                // Incr::on_update: a node-level handler (no observer involved)
+                let id = a["n"].as_u64().unwrap() as usize;
+                let n = self.node(id);
+                let ix = {
+                    let mut t = self.t.borrow_mut();
+                    let c = t.nhandlers.entry(id).or_insert(0);
+                    *c += 1;
+                    *c
+                };
+                let c2 = ctx.clone();
+                n.on_update(move |u: incremental::NodeUpdate<&Val>| {
+                    let (k, v) = match u {
+                        incremental::NodeUpdate::Necessary(v) => ("Necessary", v.to_json()),
+                        incremental::NodeUpdate::Changed(v) => ("Changed", v.to_json()),
+                        incremental::NodeUpdate::Invalidated => ("Invalidated", json!(["none", 0, 0])),
+                        incremental::NodeUpdate::Unnecessary => ("Unnecessary", json!(["none", 0, 0])),
+                    };
+                    c2.with(|t| t.log.ndlv.push((id, ix, k.to_string(), v)));
+                });
+            }
             "xarm" => {
                 let id = a["n"].as_u64().unwrap() as usize;
                 let cell = self.t.borrow().armed.get(&id).cloned().unwrap_or_else(|| panic!("harness: node {id} has no observability callback"));
@@ -740,6 +765,7 @@ impl Session {
                     t.log.reads.clear();
                     t.log.dlv.clear();
                     t.log.memo.clear();
+                    t.log.ndlv.clear();
                 }
                 self.st().stabilise();
             }
@@ -829,7 +855,12 @@ impl Session {
                     }
                     let got = n["scope"].as_i64().unwrap_or(-1);
                     if n["kind"] != "released" && got != -1 && Some(got) != sc[i].as_i64() {
-                        ok = false;
+                        if nodes.len() == sc.len() && e["memomade"].get(i).and_then(|b| b.as_bool()).unwrap_or(false) {
+                            // not a re-numbering: C20 fixes the scope of a node made by a memoised function
+                            out.push(Mismatch { prop: "C20", step, what: format!("node {} made by the memoised function belongs to scope {got} instead of the scope weak_memoize_fn was called in ({})", i + 1, sc[i]) });
+                        } else {
+                            ok = false;
+                        }
                     }
                 }
                 if !ok {
@@ -963,6 +994,16 @@ impl Session {
             want.dedup();
             if got != want {
                 out.push(Mismatch { prop: "C06", step, what: format!("cutoff consultations {got:?} expected {want:?}") });
+            }
+        }
+        if let Some(want) = e["ndlv"].as_array() {
+            let key = |j: &J| j.to_string();
+            let mut g: Vec<J> = t.log.ndlv.iter().map(|(n, i, k, v)| json!({"n": n, "i": i, "u": k, "v": v})).collect();
+            let mut w = want.clone();
+            g.sort_by_key(key);
+            w.sort_by_key(key);
+            if g != w {
+                out.push(Mismatch { prop: "ONUPDATE", step, what: format!("node-level on_update deliveries {g:?} expected {w:?}") });
             }
         }
         if let Some(want) = e["memo"].as_array() {
@@ -1167,6 +1208,7 @@ pub fn reshape_snapshot(snap: &str) -> J {
         m.entry("recat").or_default().push(g("rec_at", json!(-1)));
         m.entry("chgat").or_default().push(g("chg_at", json!(-1)));
         m.entry("numh").or_default().push(g("num_handlers", json!(0)));
+        m.entry("nnh").or_default().push(json!(if released { 0 } else { n["node_handlers"].as_i64().unwrap_or(0).max(0) }));
         m.entry("nobs").or_default().push(g("observers", json!([])));
         m.entry("rhs").or_default().push(if kind == "lhs" { g("rhs", json!(0)) } else { json!(0) });
         m.entry("force").or_default().push(g("force_nec", json!(false)));
@@ -1181,7 +1223,7 @@ pub fn reshape_snapshot(snap: &str) -> J {
     for (k, v) in m {
         out.insert(k.to_string(), J::Array(v));
     }
-    for k in ["def", "kind", "children", "created", "lc", "lhsin", "xedges", "fstale", "scope", "valid", "h", "hrch", "hahh", "par", "cip", "pic", "recat", "chgat", "numh", "nobs", "rhs", "force", "setat", "val"] {
+    for k in ["def", "kind", "children", "created", "lc", "lhsin", "xedges", "fstale", "scope", "valid", "h", "hrch", "hahh", "par", "cip", "pic", "recat", "chgat", "numh", "nnh", "nobs", "rhs", "force", "setat", "val"] {
         out.entry(k.to_string()).or_insert(json!([]));
     }
     out.insert("rel".into(), J::Array(rel));
@@ -1257,6 +1299,7 @@ impl Session {
         json!({
             "panic": panic, "pclass": pclass, "reads": reads, "cells": cells, "inv": inv, "dlv": dlv, "cut": cut,
             "inreads": inreads, "memo": memo, "rets": t.log.rets.clone(),
+            "ndlv": t.log.ndlv.iter().map(|(n, i, k, v)| json!({"n": n, "i": i, "u": k, "v": v})).collect::<Vec<J>>(),
             "stable": self.state.as_ref().map_or(true, |s| s.is_stable()),
             "snap": snap,
         })
